@@ -61,6 +61,12 @@ func (P) Gen(r *core.Rand, tier string, emit func([]string)) {
 		n = 4000
 	}
 	jsonstrDirected(emit)
+	var qd []string
+	for _, q := range []string{"", "a", "a=", "=", "==", "a=b=c", "sig=c2ln=", "t=YWJjZA==&t=x", "&&a=1&&", "a=1;b=2&c=3", "k%3D=v%26w", "x+y=+", "%zz=1&ok=1",
+		"a=%4", "a=%", "b=2&a=1&b=1", "%3d=%3D", "a=%00", "=v&=w"} {
+		qd = append(qd, "query "+core.HexS(q))
+	}
+	emit(qd)
 	for i, m := 0, n/2; i < m; i++ {
 		emit(jsonstrOps(r, 12))
 	}
@@ -132,6 +138,9 @@ func (P) Gen(r *core.Rand, tier string, emit func([]string)) {
 			}
 		}
 		ops = append(ops, jsonstrOps(r, r.Range(1, 3))...)
+		for k, m := 0, r.Range(1, 2); k < m; k++ {
+			ops = append(ops, "query "+core.HexS(msggen.RawQuery(r)))
+		}
 		if r.Chance(1, 4) {
 			// the log as a whole: many more entries, then everything is inspected again
 			ops = append(ops, "logmany "+strconv.Itoa(r.Range(2, 40))+" "+strconv.FormatUint(r.U64()%1000000, 10))
